@@ -40,6 +40,11 @@ EDITS = [
  ("setu64.rs", "Tiny::contains gap", r"(fn contains\(mut self[\s\S]*?)e -= n \+ 1;", r"\g<1>e -= n;"),
  ("setu64.rs", "Tiny::contains order test", r"(fn contains\(mut self[\s\S]*?)\} else if e < n \{", r"\g<1>} else if e <= n + 1 {"),
  ("setu64.rs", "mask", r"(fn mask\(bits: usize\) -> u64 \{\s*)\(1 << bits\) - 1", r"\g<1>(1 << bits)"),
+ ("setu64.rs", "insert dense sets the wrong bit", r"\*bits = \*bits \| whichbit;", "*bits = *bits | (whichbit << 1);"),
+ ("setu64.rs", "insert dense counts a present element", r"if !present \{\s*\*sz = \*sz \+ 1;", "if present {\n                        *sz = *sz + 1;"),
+ ("setu64.rs", "insert heap empty-spot word", r"a\[idx\] = key << s\.bits \| 1 << offset;", "a[idx] = key << s.bits | 1 << (offset + 1);"),
+ ("setu64.rs", "insert heap found: forgets the count", r"(a\[idx\] = a\[idx\] \| \(1 << offset\);\s*)s\.sz \+= 1;", r"\g<1>"),
+ ("setu32.rs", "insert heap room rule", r"n \+ 1 > a\.len\(\) >> 4", "n + 1 > a.len() >> 3"),
  ("setu64.rs", "BITSPLITS row", r"&\[25, 12, 12, 12\]", "&[26, 12, 12, 12]"),
  ("setu32.rs", "log_2 width", r"(fn log_2\(x: u32\)[\s\S]*?)num_bits::<u32>\(\) as u32 - x\.leading_zeros\(\)", r"\g<1>num_bits::<u32>() as u32 + 1 - x.leading_zeros()"),
  ("setu32.rs", "compute_array_bits large threshold", r"else if log_2\(mx\) > 62 \{", "else if log_2(mx) > 31 {"),
@@ -61,7 +66,7 @@ def main():
     shutil.copytree("/repo/src", W + "/repo/src")
     sh(f"rsync -a --exclude .lake/build/bin {V}/lean/ {W}/lean/")
     env = dict(os.environ, VERIF_REPO=W + "/repo", VERIF_GEN_OUT=W + "/lean/TinysetModel/Generated")
-    target = "TinysetModel.Proofs.Consts TinysetModel.Proofs.Fns TinysetModel.Proofs.Loops TinysetModel.Proofs.ContainsSrc TinysetModel.Proofs.RemoveSrc TinysetModel.Proofs.Fits"
+    target = "TinysetModel.Proofs.Consts TinysetModel.Proofs.Fns TinysetModel.Proofs.Loops TinysetModel.Proofs.ContainsSrc TinysetModel.Proofs.RemoveSrc TinysetModel.Proofs.InsertSrc TinysetModel.Proofs.Fits"
     rc, out = sh(f"python3 {V}/tools/gen_consts.py && lake build {target}", cwd=W + "/lean", env=env)
     if rc != 0:
         print("baseline does not build:", out[-800:]); return 2
